@@ -545,8 +545,9 @@ pub fn clutter_filter_map_with(r: &mut Rng, nseg: usize, zone_mode: u64, big_at:
     let mut boundaries = vec![v.len()];
     let mut segments = Vec::with_capacity(nseg);
     let mut segment_ends = Vec::with_capacity(nseg);
+    let related_map = matches!(zone_mode, 0 | 1 | 2 | 5) && r.below(2) == 0;
     for s in 0..nseg {
-        let mut az = Vec::with_capacity(360);
+        let mut az: Vec<Vec<(u16, u16)>> = Vec::with_capacity(360);
         for a in 0..360 {
             let mut count = match zone_mode {
                 0 => 1 + r.below(4) as usize,
@@ -568,17 +569,66 @@ pub fn clutter_filter_map_with(r: &mut Rng, nseg: usize, zone_mode: u64, big_at:
                     count = bc;
                 }
             }
+            // Neighbouring azimuths of a real map are usually coded alike: now and then an azimuth
+            // repeats its predecessor exactly, or with one zone changed, a longer or a shorter list.
+            let is_big = matches!(big_at, Some((bs, ba, _)) if bs == s && ba == a);
+            let mut zones: Vec<(u16, u16)> = Vec::new();
+            let mut related = false;
+            if related_map && a > 0 && !is_big && r.below(4) == 0 {
+                let prev: &Vec<(u16, u16)> = &az[a - 1];
+                if !prev.is_empty() {
+                    related = true;
+                    zones = prev.clone();
+                    match r.below(6) {
+                        0 => {}
+                        1 => {
+                            let k = r.below(zones.len() as u64) as usize;
+                            zones[k].1 = (zones[k].1 + 1 + r.below(500) as u16) % 512;
+                        }
+                        2 => {
+                            let k = zones.len() - 1;
+                            zones[k].0 = (zones[k].0 + 1) % 3;
+                        }
+                        3 => {
+                            let extra = [1usize, 2, 64, 128, 256, 20][r.below(6) as usize];
+                            for _ in 0..extra {
+                                zones.push((r.below(3) as u16, r.below(512) as u16));
+                            }
+                        }
+                        4 => {
+                            let keep = r.below(zones.len() as u64) as usize;
+                            zones.truncate(keep);
+                        }
+                        _ => {
+                            // same prefix of 20 (the customary maximum), different afterwards
+                            let k = zones.len() - 1 - r.below((zones.len() as u64).min(3)) as usize;
+                            zones[k] = ((zones[k].0 + 1) % 3, zones[k].1 ^ 1);
+                        }
+                    }
+                }
+            }
+            if related {
+                count = zones.len();
+            }
             v.extend_from_slice(&be16(count as u16));
             boundaries.push(v.len());
-            let mut zones = Vec::with_capacity(count);
-            for _ in 0..count {
-                let op = r.below(3) as u16;
-                // 511 km is the conventional end of the last zone; it also occurs elsewhere
-                let end = if r.below(8) == 0 { 511 } else { r.below(512) as u16 };
-                v.extend_from_slice(&be16(op));
-                v.extend_from_slice(&be16(end));
-                zones.push((op, end));
-                boundaries.push(v.len());
+            if related {
+                for &(op, end) in &zones {
+                    v.extend_from_slice(&be16(op));
+                    v.extend_from_slice(&be16(end));
+                    boundaries.push(v.len());
+                }
+            } else {
+                zones.reserve(count);
+                for _ in 0..count {
+                    let op = r.below(3) as u16;
+                    // 511 km is the conventional end of the last zone; it also occurs elsewhere
+                    let end = if r.below(8) == 0 { 511 } else { r.below(512) as u16 };
+                    v.extend_from_slice(&be16(op));
+                    v.extend_from_slice(&be16(end));
+                    zones.push((op, end));
+                    boundaries.push(v.len());
+                }
             }
             az.push(zones);
         }
@@ -621,6 +671,24 @@ pub fn bzip2_compress(payload: &[u8]) -> Vec<u8> {
         .read_to_end(&mut out)
         .expect("bzip2 compression of an in-memory buffer");
     out
+}
+
+/// An LDM record whose compressed part consists of several bzip2 members one after the other
+/// (what `cat a.bz2 b.bz2` or a parallel compressor produces): still one size prefix.
+pub fn ldm_record_members(payload: &[u8], split_at: &[usize], negative: bool) -> Vec<u8> {
+    let mut z = Vec::new();
+    let mut from = 0;
+    for &t in split_at.iter().chain(std::iter::once(&payload.len())) {
+        let t = t.clamp(from, payload.len());
+        z.extend_from_slice(&bzip2_compress(&payload[from..t]));
+        from = t;
+    }
+    let size = z.len() as i32;
+    let prefix = if negative { -size } else { size };
+    let mut v = Vec::with_capacity(4 + z.len());
+    v.extend_from_slice(&prefix.to_be_bytes());
+    v.extend_from_slice(&z);
+    v
 }
 
 /// An LDM record: 4-byte big-endian size prefix (negative when `negative`) + bzip2 stream.
